@@ -100,6 +100,14 @@ CTX_TEMPLATES = [
     ('BitStruct("a"/Nibble, "b"/Bytewise(Bytes(this._.n)), "c"/Nibble)', dict(n=2), dict(a=1, b=b'xy', c=2)),
     ('Bitwise(Struct("x"/BitsInteger(this._.w), "y"/Padding(8 - this._.w)))', dict(w=3), dict(x=5)),
     ('BitsSwapped(Bytes(this.n))', dict(n=2), b'ab'),
+    ('BitsInteger(this.w)', dict(w=8), 5),
+    ('BitsInteger(this.w, signed=True, swapped=True)', dict(w=16), -2),
+    ('Array(2, BitsInteger(this.w))', dict(w=3), [1, 2]),
+    ('IfThenElse(this.f, BitsInteger(this.w), Byte)', dict(f=True, w=4), 3),
+    ('Prefixed(Byte, BitsInteger(this.w))', dict(w=8), 5),
+    ('BytesInteger(this.w, signed=True)', dict(w=2), -2),
+    ('Aligned(this.m, Pass)', dict(m=4), None),
+    ('ProcessRotateLeft(this.n, this.g, Bytes(2))', dict(n=3, g=2), b'ab'),
     # branches of equal size do not make the size known: the default / the other branch may differ
     ('Struct("tag"/Byte, "value"/Switch(this.tag, {1: Int16ub, 2: Int16sb}))', dict(), dict(tag=9, value=None)),
     ('Struct("tag"/Byte, "value"/Switch(this.tag, {1: Int16ub, 2: Int16sb}, default=Byte))', dict(), dict(tag=9, value=5)),
